@@ -305,41 +305,52 @@ func runC08(r *Report) {
 	r.Anchor("R08b", "two-level accesses (>= 12)", nAddr >= 12)
 
 	// R08e batch lookup: the identity used for a position is derived from the command at that position
-	if fn := r.FnAnchor("R08e", "rueidis.(*lru).Flights"); fn != nil {
+	if fn0 := r.FnAnchor("R08e", "rueidis.(*lru).Flights"); fn0 != nil {
 		n := 0
-		for _, cs := range CallSites(fn, "rueidis/internal/cmds.CacheKey") {
-			_, X, ok := elemOfDeep(cs.Call().Common().Args[0])
-			if !ok {
-				r.ObSite("R08e", cs, "identity-of-a-batch-element", false, "the identity is not derived from an element of the batch")
-				continue
+		for _, fn := range WithHelpers(p, fn0) { // Flights may be split into its two passes
+			var resP, entP ssa.Value
+			for _, prm := range fn.Params {
+				switch shortType(prm.Type()) {
+				case "[]rueidis.RedisResult":
+					resP = prm
+				case "map[int]rueidis.CacheEntry":
+					entP = prm
+				}
 			}
-			for _, b := range fn.Blocks {
-				if !cs.Block.Dominates(b) {
+			for _, cs := range CallSites(fn, "rueidis/internal/cmds.CacheKey") {
+				_, X, ok := elemOfDeep(cs.Call().Common().Args[0])
+				if !ok {
+					r.ObSite("R08e", cs, "identity-of-a-batch-element", false, "the identity is not derived from an element of the batch")
 					continue
 				}
-				for _, in := range b.Instrs {
-					var idx ssa.Value
-					switch x := in.(type) {
-					case *ssa.Store:
-						if ia, isia := x.Addr.(*ssa.IndexAddr); isia && Desc(ia.X) == "p3" {
-							idx = ia.Index
-						}
-					case *ssa.MapUpdate:
-						if Desc(x.Map) == "p4" {
-							idx = x.Key
-						}
-					}
-					if idx == nil {
+				for _, b := range fn.Blocks {
+					if !cs.Block.Dominates(b) {
 						continue
 					}
-					// only within the same loop iteration: no loop header strictly between
-					n++
-					same := idx == X
-					if !same {
-						// X may be the range index while idx is the loaded range value (missed[t]) or vice versa
-						same = throughLocal(idx) == throughLocal(X)
+					for _, in := range b.Instrs {
+						var idx ssa.Value
+						switch x := in.(type) {
+						case *ssa.Store:
+							if ia, isia := x.Addr.(*ssa.IndexAddr); isia && resP != nil && ia.X == resP {
+								idx = ia.Index
+							}
+						case *ssa.MapUpdate:
+							if entP != nil && x.Map == entP {
+								idx = x.Key
+							}
+						}
+						if idx == nil {
+							continue
+						}
+						// only within the same loop iteration: no loop header strictly between
+						n++
+						same := idx == X
+						if !same {
+							// X may be the range index while idx is the loaded range value (missed[t]) or vice versa
+							same = throughLocal(idx) == throughLocal(X)
+						}
+						r.ObSite("R08e", SiteOf(in), "result-slot-matches-identity-position", same, fmt.Sprintf("the result/entry slot filled after looking an identity up is the slot of the command the identity was derived from: identity of %s, slot %s", Desc(X), Desc(idx)))
 					}
-					r.ObSite("R08e", SiteOf(in), "result-slot-matches-identity-position", same, fmt.Sprintf("the result/entry slot filled after looking an identity up is the slot of the command the identity was derived from: identity of %s, slot %s", Desc(X), Desc(idx)))
 				}
 			}
 		}
